@@ -12,8 +12,10 @@ pub fn short_revert_string_optimization(source_unit: SourceUnit) -> HashSet<Loc>
     //Create a new hashset that stores the location of each optimization target identified
     let mut optimization_locations = HashSet::<Loc>::new();
 
-    let solidity_version = utils::get_solidity_version_from_source_unit(source_unit.clone())
-        .expect("Could not extract Solidity version from source unit.");
+    let solidity_version = match utils::get_solidity_version_from_source_unit(source_unit.clone()) {
+        Some(solidity_version) => solidity_version,
+        None => return optimization_locations,
+    };
 
     if !(solidity_version.1 >= 8 && solidity_version.2 >= 4) {
         let target_nodes = ast::extract_target_from_node(Target::FunctionCall, source_unit.into());
